@@ -485,6 +485,8 @@ def _chk_quiesce(n, k, what):
             leaked = e["malloc"] - e.get("malloc0", 0)     # heap leaked by EARLIER scripts of this pool is theirs, not ours
             if leaked != 0:
                 out.append({"kind": "leak", "msg": "%s: the library still holds %d bytes of heap (ncmpi_inq_malloc_size) on rank %d with no file open" % (what, leaked, r), "sig": {"kind": "leak_heap"}})
+            if e.get("fds", 0) > 0:
+                out.append({"kind": "leak", "msg": "%s: rank %d still holds %d open POSIX file descriptor(s) on files of the scratch directory with no netCDF file open" % (what, r, e["fds"]), "sig": {"kind": "leak_fd"}})
             led = e["ledger"]
             names = ["datatype", "communicator", "info", "file handle"]
             for i in range(4):
